@@ -47,6 +47,11 @@ Consume ==
           \* atomicity: the value the real RMW read is the last in modification order
           /\ mo[Len(mo)].val = Ev.seen
           /\ StepRmw(T, Ins, <<>>) /\ Counters /\ UNCHANGED <<hnd, used>>
+       \* a successful compare_exchange / a swap: an RMW that installs Ev.new (a failed compare_exchange is
+       \* logged as the load it is)
+       \/ /\ Ev.e = "cas"
+          /\ mo[Len(mo)].val = Ev.seen
+          /\ StepRmwTo(T, Ins, <<>>, Ev.new) /\ Counters /\ UNCHANGED <<hnd, used>>
        \/ /\ Ev.e = "load"
           \* the value read must be one the memory model allows this thread to read
           /\ \E j \in Floor(T)..Len(mo) : mo[j].val = Ev.seen /\ StepLoad(T, Ins, <<>>, j)
